@@ -187,6 +187,14 @@ def run_case(ck, desc):
                 if zp is not None and abs(zh / zp - 1) <= 0.05 and abs(dak.residual(zl_, Tr, pr, True)) <= 1e-8:
                     known = "K1-dak-first-coefficient"
                 ck.violation("hall-yarbrough-agrees-5%", detail, desc, known_key=known)
+    # the same correlation when the caller's scalars are typed differently (Python int, numpy
+    # int64; float32 scalars would legitimately carry float32 rounding into T_r and p_r): every event is judged at the value that was actually passed
+    for pr in desc["pr"][:4]:
+        p_psi = pr * ppc
+        if p_psi >= 2:
+            z_factor_DAK(T, np.int64(round(p_psi)), Tpc, ppc)
+            z_factor_DAK(T, int(round(p_psi)), Tpc, int(round(ppc)))
+            ck.count("typed_scalar_evaluations", 2)
     # the same isotherm again at a temperature that differs by a few parts per million, evaluated
     # right afterwards: the result may not depend on what was evaluated before (every value is
     # judged by the residual of the equation at ITS OWN temperature)
